@@ -131,6 +131,10 @@ def run(m, tier):
     r9 = regex_rules.label_name_rules(m, "C07.R9")
     r9.title = "label / construct-name extraction takes exactly one label (blanks are significant in free form): digit-only garbage is not swallowed as a label-only line"
     results.append(r9)
+    results.append(order_rules.definite_none_rule(m, "C07.R10"))
+    r11 = rr.rule_continuation(m, "C07.R11")
+    r11.title = "the statement -- and so the line an error is reported at -- ends where the continuation ends: " + r11.title
+    results.append(r11)
     expl = ("Decides narrow structural clauses of C07: wherever a message quotes a source line it is source_lines[linecount - 1] of the "
             "same reader whose linecount is printed; every FortranSyntaxError is raised with the function's reader parameter; the "
             "physical line counter is moved by exactly one per line taken/given back on every path and item spans are tied to it "
